@@ -774,7 +774,11 @@ func SexpToGoStructs(
 		//vv("*SexpInt code src.Val='%#v'.. targVa.Elem()='%#v'/Type: %T", src.Val, targVa.Elem().Interface(), targVa.Elem().Interface())
 		switch targVa.Elem().Interface().(type) {
 		case float64:
-			targVa.Elem().SetFloat(float64(src.Val))
+			f := float64(src.Val)
+			if f >= 9223372036854775808.0 || int64(f) != src.Val {
+				return nil, fmt.Errorf("SexpToGoStructs error: integer %d is not exactly representable in Go type %v", src.Val, targElemTyp)
+			}
+			targVa.Elem().SetFloat(f)
 		case int64:
 			targVa.Elem().SetInt(int64(src.Val))
 		default:
@@ -794,6 +798,10 @@ func SexpToGoStructs(
 	case *SexpFloat:
 		switch targVa.Elem().Interface().(type) {
 		case int64:
+			// only a whole number within range converts without loss
+			if !(src.Val >= -9223372036854775808.0 && src.Val < 9223372036854775808.0) || float64(int64(src.Val)) != src.Val {
+				return nil, fmt.Errorf("SexpToGoStructs error: float %v is not exactly representable in Go type %v", src.Val, targElemTyp)
+			}
 			targVa.Elem().SetInt(int64(src.Val))
 		case float64:
 			targVa.Elem().SetFloat(float64(src.Val))
